@@ -1,21 +1,31 @@
 """C05 - SCC pop-on decoding reproduces the CEA-608 screen: text, rows, italics, position.
 
-Inputs: abstract pop-on programs (coq/spec/SpecScc05.v): loads of rows; a row = preamble address code (row 1-15,
-indent 0-28, tab offset 0-3, optional italics attribute) + items (basic / special / extended-with-stand-in characters,
-mid-row italics / plain, backspace); control codes single or doubled (PAC + tab offset doubled as a unit).
-The code words are produced by the Coq emitter (request 501, from spec/Spec608.v, independent of pycaption's tables).
+Inputs: abstract pop-on programs (coq/spec/SpecScc05.v): loads of rows; a row = preamble address code (row 1-15, indent
+0-28, tab offset 0-3, style attribute: 7 colours x underline, italics, italics underline) + items (basic / special /
+extended-with-stand-in characters, the 16 mid-row codes, backspace). The code words are produced by the Coq emitter
+(request 501, from spec/Spec608.v, independent of pycaption's tables), single-coded; the harness then doubles control
+codes PER CODE (all / none / each with probability 1/2; PAC + tab offset doubled as a unit) and lays the loads out on
+timecode lines in varying ways: one load per line, several loads on a line, a load split over lines, loads WITHOUT
+Erase-Non-displayed-Memory, Erase-Displayed-Memory before a load on its line / on lines of their own / absent, upper-case
+hex digits, CRLF line ends, double blanks.
 Streams:
-  A  table sweep (deterministic, single and doubled): every one of the 15 x 8 x 4 cursor addresses; every preamble
-     style of every row (7 colours x underline, italics, italics underline; underline bit of the indent preambles)
-     followed by a plain row; every one of the 16 mid-row codes with italics off and on; every basic / special /
-     extended character in first, middle, last position; backspace after every basic, special and extended character;
-     extended after extended
-  B  random programs: 1-4 loads of 1-4 rows
-  C  random code-word soups (any order of any code class): decoder-model correspondence only
+  A  table sweep (deterministic, all single and all doubled): every cursor address; every preamble style of every row
+     followed by a plain row; every mid-row code with italics off and on; every basic / special / extended character in
+     first / middle / last position; backspace after every basic, special and extended code; extended after extended;
+     backspace at the start of a row (known finding)
+  B  bounded-exhaustive: ALL item sequences of length <= 3 over {character, blank, special, extended, italics on, plain,
+     backspace} as the second row of a two-row load (adjacent / non-adjacent) x all-single / all-doubled
+  C  random programs: 1-4 loads of 1-4 rows, incl. the shapes of the wider oracle domain dom_c05_wide (blanks at row ends,
+     blank after a mid-row code, backspace with nothing to erase, transparent space, a row number used twice)
+  D  random code-word soups that stay in pop-on mode: decoder-model correspondence only
 Observation (public API): SCCReader().read(stream) -> captions: times, nodes (text / break / italics), layout.
-Correspondence: the full extracted decoder model (request 600): times 2^-10 us, nodes exact, layout 1e-9 %.
-Property oracle: Coq ok_c05 (request 502) on the implementation's captions for every program in dom_c05.
+Property oracle: Coq ok_c05 (request 502) on the implementation's captions for every program in dom_c05_wide.
+Correspondence (at the level the property fixes): characters with italic flag per line, caption origin - the full extracted
+decoder model (request 600) vs the implementation. Node segmentation, per-node layouts, alignment, times are NOT compared here.
 """
+import itertools
+import random as _random
+
 import impl
 import sccgen as g
 import sccobs
@@ -35,8 +45,10 @@ def text_items(s):
     return [ch(c) for c in s]
 
 
-def rand_items(rng, maxlen):
-    """items of one row; first / last visible cell is not a blank"""
+def rand_items(rng, maxlen, wide=False):
+    """items of one row. wide: also the shapes of dom_c05_wide (blank first / last, blank after a mid-row code, backspace
+    with nothing to erase / twice, transparent space) and, rarely, shapes outside it (backspace after a mid-row code,
+    immediately repeated special) which are counted, not judged"""
     n = rng.randint(1, max(1, min(maxlen, rng.choice([2, 4, 8, 12, 20, 32]))))
     items = []
     cells = 0
@@ -44,9 +56,10 @@ def rand_items(rng, maxlen):
     while cells < n:
         r = rng.random()
         last = cells == n - 1
-        if r < 0.62 or (cells == 0 and r < 0.8):
+        if r < 0.62 or (cells == 0 and r < 0.8 and not wide):
             c = rng.choice(LETTERS) if rng.random() < 0.9 else rng.choice("áéíóúçÑñ÷")
-            if 0 < cells < n - 1 and rng.random() < 0.15 and prev not in ("space", "mid"):
+            blank_ok = (0 < cells < n - 1 and prev not in ("space", "mid")) or (wide and n > 1)
+            if blank_ok and rng.random() < 0.15:
                 items.append(ch(" "))
                 prev = "space"
             else:
@@ -54,14 +67,14 @@ def rand_items(rng, maxlen):
                 prev = "ch"
             cells += 1
         elif r < 0.70:
-            i = rng.choice([0, 1, 2, 3, 4, 5, 6, 7, 8, 10, 11, 12, 13, 14, 15])
-            if prev == ("sp", i):
+            i = rng.choice([0, 1, 2, 3, 4, 5, 6, 7, 8, 10, 11, 12, 13, 14, 15] + ([9] if wide else []))
+            if prev == ("sp", i) and not (wide and rng.random() < 0.1):
                 continue
             items.append([1, i])
             prev = ("sp", i)
             cells += 1
         elif r < 0.80:
-            items.append([2, ord(rng.choice("aeioucAEOUnN-x")), rng.randint(0, 1), rng.randint(0, 31)])
+            items.append([2, ord(rng.choice(g.BASIC_VISIBLE)), rng.randint(0, 1), rng.randint(0, 31)])
             prev = "ext"
             cells += 1
         elif r < 0.88:
@@ -70,17 +83,18 @@ def rand_items(rng, maxlen):
             items.append([3, rng.choice([14, 14, 14, 15, 15, 0, 0, 1, rng.randint(0, 15)])])
             prev = "mid"
             cells += 1
-        elif r < 0.94 and (prev in ("ch", "ext") or isinstance(prev, tuple)) and cells + 1 < n:
-            items.append([5])
-            prev = "bs"
-            cells -= 1
-    if items and items[-1] == ch(" "):
+        elif r < 0.94 and cells + 1 < n:
+            if prev in ("ch", "ext", "space") or isinstance(prev, tuple) or (wide and rng.random() < 0.5):
+                items.append([5])
+                prev = "bs"
+                cells = max(0, cells - 1)
+    if not wide and items and items[-1] == ch(" "):
         items[-1] = ch("x")
     return items
 
 
 def rand_program(rng):
-    doubled = rng.random() < 0.6
+    wide = rng.random() < 0.35
     loads = []
     for _ in range(rng.choice([1, 1, 2, 2, 3, 4])):
         nrows = rng.choice([1, 1, 2, 2, 3, 4])
@@ -89,26 +103,45 @@ def rand_program(rng):
             rows = list(range(start, start + nrows))
         else:
             rows = rng.sample(range(1, 16), nrows)
+        if wide and nrows >= 2 and rng.random() < 0.3:
+            rows[-1] = rows[0]                                  # a row number used twice in the load
         load = []
-        for r in rows:
+        for j, r in enumerate(rows):
             indent = rng.choice([0, 0, 0, 4, 8, 12, 16, 20, 24, 28])
+            if wide and j == len(rows) - 1 and r == rows[0] and len(rows) > 1:
+                indent = rng.choice([0, 12, 16, 20])
             if indent == 0:
                 style = rng.choice([0, 0, 0, 0, 1, 14, 14, 15, 15, rng.randint(2, 13)])
             else:
                 style = rng.choice([0, 0, 0, 1])
             tab = rng.choice([0, 0, 0, 1, 2, 3])
-            load.append([r, indent, tab, style, rand_items(rng, 32 - indent - tab)])
+            load.append([r, indent, tab, style, rand_items(rng, 32 - indent - tab, wide)])
         loads.append(load)
-    return [doubled, loads]
+    return [False, loads]
+
+
+ALPHABET = [[0, ord("a")], [0, 32], [1, 3], [2, ord("e"), 0, 1], [3, 14], [3, 0], [5]]
+
+
+def enum_programs():
+    """bounded-exhaustive: every item sequence of length <= 3 over ALPHABET as the second row (after 'xy' on row 5) of a
+    two-row load, the second row directly below / elsewhere"""
+    out = []
+    for n in (1, 2, 3):
+        for seq in itertools.product(ALPHABET, repeat=n):
+            for r2 in (6, 9):
+                out.append([False, [[[5, 0, 0, 0, text_items("xy")], [r2, 4, 0, 0, [list(i) for i in seq]]]]])
+    return out
 
 
 def sweep_programs():
     out = []
-    for doubled in (False, True):
+    for doubled in (False,):
         for r in range(1, 16):
             for ind in range(0, 32, 4):
                 for tab in range(4):
-                    out.append([doubled, [[[r, ind, tab, 0, text_items("Ab")]]]])
+                    # (the last columns hold one character only)
+                    out.append([doubled, [[[r, ind, tab, 0, text_items("Ab" if ind + tab <= 30 else "A")]]]])
                 if ind:                                           # underline bit of the indent preambles
                     out.append([doubled, [[[r, ind, 0, 1, text_items("un")]]]])
             for style in range(16):                               # every colour / underline / italics preamble
@@ -135,42 +168,97 @@ def sweep_programs():
                 out.append([doubled, [[[13, 0, 1, 0, [e] + text_items("ab") + [e] + text_items("c") + [e]]]]])
                 out.append([doubled, [[[12, 0, 0, 0, text_items("Hi") + [[2, ord("A"), grp, i], [5]] + text_items("BC")]]]])
                 out.append([doubled, [[[11, 0, 0, 0, text_items("Hi") + [e, [2, ord("A"), grp, i]] + text_items("BC")]]]])
+    # KNOWN FINDING C05-backspace-at-row-start: a backspace with nothing to erase in its own row
+    for r2 in (6, 9):
+        out.append([False, [[[5, 0, 0, 0, text_items("ab")], [r2, 0, 0, 0, [[5]] + text_items("cd")]]]])
+        out.append([False, [[[5, 0, 0, 0, text_items("ab")], [r2, 0, 0, 0, text_items("c") + [[5], [5]] + text_items("d")]]]])
     return out
 
 
-def mid_on_empty_after_full(prog):
-    """lc_ok8 of proofs/SccPoponStage8.v beyond dom_c05: a row filling its 32 cells is directly followed by a row in which
-    a mid-row code arrives while the row shows no character yet (first item, after other mid-row codes, or after a
-    backspace emptied the row): the reader appends the code's blank to the previous text, which trips the length check"""
-    def cells_and_flag(items):
-        acc, flag = [], False
-        for it in items:
-            if it[0] == 3:
-                if not any(c == "cell" for c in acc):
-                    flag = True
-                acc.append("opt")
-            elif it[0] == 5:
-                if acc:
-                    acc.pop()
-            else:
-                acc.append("cell")
-        return len(acc), flag
-    for load in prog[1]:
-        info = [cells_and_flag(r[4]) for r in load]
-        for (n, _), (_, flag) in zip(info, info[1:]):
-            if n >= 32 and flag:
-                return True
-    return False
+def is_ctrl(w):
+    return ((w >> 8) & 0x7f) < 0x20
 
 
-def build_stream(prog, words, clear, rng=None):
+def is_pac_word(w):
+    return 0x10 <= ((w >> 8) & 0x7f) <= 0x17 and (w & 0x7f) >= 0x40
+
+
+def is_tab_word(w):
+    return ((w >> 8) & 0x7f) == 0x17 and 0x21 <= (w & 0x7f) <= 0x23
+
+
+def double_codes(ws, mode, rng):
+    """per-code doubling of a single-coded word list: every control code (PAC + tab offset as a unit) is sent twice when
+    mode == 'all', never when 'none', with probability 1/2 each when 'mixed'. A control code that is meant twice in a row
+    (two backspaces, the same special character twice) can only be transmitted doubled - CEA-608 reads an immediately
+    repeated control pair as the redundant copy - so such neighbours are doubled in every mode."""
+    units = []
+    i = 0
+    while i < len(ws):
+        w = ws[i]
+        unit = [w]
+        if is_pac_word(w) and i + 1 < len(ws) and is_tab_word(ws[i + 1]):
+            unit = [w, ws[i + 1]]
+        i += len(unit)
+        units.append(unit)
+    out = []
+    for k, unit in enumerate(units):
+        ctrl = is_ctrl(unit[0])
+        twin = ctrl and ((k > 0 and units[k - 1] == unit) or (k + 1 < len(units) and units[k + 1] == unit))
+        d = ctrl and (twin or mode == "all" or (mode == "mixed" and rng.random() < 0.5))
+        out += unit * 2 if d else unit
+    return out
+
+
+W_ENM, W_EDM = int(g.ENM, 16), int(g.EDM, 16)
+LAYOUTS = ["line-per-load", "line-per-load", "no-enm", "edm-before-load", "edm-lines", "several-per-line", "split"]
+
+
+def build_stream(prog, words, clear, rng=None, layout="line-per-load", doubling="none", text="plain"):
+    """lay the loads out on timecode lines. The oracle does not depend on the layout."""
+    rng = rng or _random.Random(0)
+    loads = []
+    for li, ws in enumerate(words):
+        ws = list(ws)
+        if layout == "no-enm" and ws and ws[0] == W_ENM:
+            ws = ws[1:]                                           # a load without Erase-Non-displayed-Memory
+        if layout == "edm-before-load" and li > 0:
+            ws = [W_EDM] + ws                                     # 942c 94ae 9420 ... on the load's line
+        loads.append(double_codes(ws, doubling, rng))
     lines = []
     frame = 30
-    for ws in words:
-        lines.append((frame, ["%04x" % w for w in ws]))
-        frame += len(ws) + (rng.choice([8, 30, 90]) if rng else 30)
-    lines.append((frame + 60, ["%04x" % w for w in clear]))
-    return g.doc([(g.timecode(f, False), ws) for f, ws in lines])
+    if layout == "several-per-line":
+        chunk = []
+        for ws in loads:
+            chunk += ws
+            if rng.random() < 0.5:
+                lines.append(chunk)
+                chunk = []
+        if chunk:
+            lines.append(chunk)
+    elif layout == "split":
+        for ws in loads:
+            cut = rng.randint(1, len(ws) - 1) if len(ws) > 2 else len(ws)
+            lines += [ws[:cut]] + ([ws[cut:]] if ws[cut:] else [])
+    elif layout == "edm-lines":
+        for ws in loads:
+            lines += [ws, double_codes([W_EDM], doubling, rng)]
+    else:
+        lines = loads
+    lines = lines + [double_codes(list(clear), doubling, rng)]
+    out = []
+    for ws in lines:
+        out.append((frame, ws))
+        frame += len(ws) + rng.choice([8, 30, 90])
+    fmt = "%04X" if text == "upper" else "%04x"
+    # (a double blank BETWEEN words would make the reader see an empty "next word" after a mid-row code, which the
+    #  parsed-lines model cannot express; blanks after the last word are harmless)
+    body = "".join(g.timecode(f, False) + "\t" + " ".join(fmt % w for w in ws) + ("  " if text == "trailing-blank" else "")
+                   + "\n\n" for f, ws in out)
+    doc = g.HEADER + "\n\n" + body
+    if text == "crlf":
+        doc = doc.replace("\n", "\r\n")
+    return doc
 
 
 def wire_obs(o):
@@ -201,28 +289,140 @@ def show(o):
     return repr(o)
 
 
+def reasons_out_of_domain(p):
+    """why a program is outside dom_c05_wide (for the counters only)"""
+    out = set()
+    for load in p[1]:
+        for r in load:
+            prev = None
+            stack = []                                             # visibility of the cells the row still shows
+            for it in r[4]:
+                if it[0] == 5:
+                    if (prev is not None and prev[0] == 3) or (stack and stack[-1] is None):
+                        out.add("backspace-onto-midrow-cell")
+                    if stack:
+                        stack.pop()
+                else:
+                    if it[0] == 1 and prev is not None and prev[0] == 1 and prev[1] == it[1]:
+                        out.add("repeated-special")
+                    stack.append(None if it[0] == 3 else not (it[0] == 0 and it[1] == 32) and not (it[0] == 1 and it[1] == 9))
+                prev = it
+            cells = len(stack)
+            if not any(stack):
+                out.add("row-without-visible-character")
+            if r[1] + r[2] + cells > 32:
+                out.add("row-beyond-column-32")
+        def ncells(r):
+            n = 0
+            for it in r[4]:
+                n = max(0, n - 1) if it[0] == 5 else n + 1
+            return n
+        for i, a in enumerate(load):
+            for b in load[i + 1:]:
+                if a[0] != b[0]:
+                    continue
+                ca, cb = a[1] + a[2], b[1] + b[2]
+                if abs(ca - cb) < 4 or ca <= b[1] <= ca + 3:
+                    out.add("same-row-within-3-columns")          # read as a tab offset, not as a new position
+                elif not (ca + ncells(a) <= cb or cb + ncells(b) <= ca):
+                    out.add("same-row-overwritten")
+    return out or {"other"}
+
+
+def has_rowstart_backspace(p):
+    """a backspace arrives while its own row shows no character and an earlier row of the load has text"""
+    for load in p[1]:
+        for j, r in enumerate(load):
+            cells = 0
+            for it in r[4]:
+                if it[0] == 5:
+                    if cells == 0 and j > 0:
+                        return True
+                    cells = max(0, cells - 1)
+                else:
+                    cells += 1
+    return False
+
+
+def expected_caption_count(p):
+    n = 0
+    for load in p[1]:
+        last = None
+        for r in load:
+            if last is None or r[0] != last + 1:
+                n += 1
+            last = r[0]
+    return n
+
+
+def judge_batch(cases):
+    """cases: list of (program, stream) -> list of (obs, model, ok)"""
+    obs = [sccobs.observe(c[1]) for c in cases]
+    models = sccobs.model_batch([(c[1], 0) for c in cases])
+    oks = oracle_batch([(502, [c[0], wire_obs(o)]) for c, o in zip(cases, obs)])
+    return obs, models, oks
+
+
+def shrink(p, layout, doubling, still_fails):
+    """greedy: drop loads, rows, items while the program stays in the wide domain and still fails"""
+    def variants(q):
+        loads = q[1]
+        for i in range(len(loads)):
+            if len(loads) > 1:
+                yield [q[0], loads[:i] + loads[i + 1:]]
+        for i, l in enumerate(loads):
+            for j in range(len(l)):
+                if len(l) > 1:
+                    yield [q[0], loads[:i] + [l[:j] + l[j + 1:]] + loads[i + 1:]]
+        for i, l in enumerate(loads):
+            for j, r in enumerate(l):
+                for k in range(len(r[4])):
+                    if len(r[4]) > 1:
+                        r2 = r[:4] + [r[4][:k] + r[4][k + 1:]]
+                        yield [q[0], loads[:i] + [l[:j] + [r2] + l[j + 1:]] + loads[i + 1:]]
+    cur = p
+    for _ in range(40):
+        for q in variants(cur):
+            if still_fails(q):
+                cur = q
+                break
+        else:
+            break
+    return cur
+
+
 def run(ctx):
     rng = ctx.rng
     res = {"evaluations": 0, "nontrivial": set(), "violations": [], "disagreements": [], "streams": 3, "notes": []}
-    dist = {"sweep_programs": 0, "random_programs": 0, "soups": 0, "out_of_domain": 0, "tracker_leak_shape": 0,
-            "doubled": 0, "items": {"ch": 0, "sp": 0, "ext": 0, "mid": 0, "bs": 0}, "loads": {}, "outcome": {}}
+    dist = {"sweep_programs": 0, "enumerated_programs": 0, "random_programs": 0, "soups": 0, "pacless_loads": 0,
+            "in_strict_domain": 0, "in_wide_domain_only": 0, "out_of_domain": {}, "layout": {}, "doubling": {}, "text": {},
+            "rowstart_backspace_programs": 0, "items": {"ch": 0, "sp": 0, "ext": 0, "mid": 0, "bs": 0}, "loads": {},
+            "outcome": {}}
     res["distribution"] = dist
-    progs = [("sweep", p) for p in sweep_programs()]
+    progs = []
+    for p in sweep_programs():
+        for dbl in ("none", "all"):
+            progs.append(("sweep", p, "line-per-load", dbl, "plain"))
     dist["sweep_programs"] = len(progs)
-    progs += [("random", rand_program(rng)) for _ in range(ctx.n(1500, 40000))]
-    dist["random_programs"] = len(progs) - dist["sweep_programs"]
-    emitted = oracle_batch([(501, p) for _, p in progs])
+    for p in enum_programs():
+        for dbl in ("none", "all"):
+            progs.append(("enum", p, "line-per-load", dbl, "plain"))
+    dist["enumerated_programs"] = len(progs) - dist["sweep_programs"]
+    for _ in range(ctx.n(1500, 40000)):
+        progs.append(("random", rand_program(rng), rng.choice(LAYOUTS), rng.choice(["none", "all", "all", "mixed"]),
+                      rng.choice(["plain", "plain", "plain", "upper", "crlf", "trailing-blank"])))
+    dist["random_programs"] = len(progs) - dist["sweep_programs"] - dist["enumerated_programs"]
+    emitted = oracle_batch([(501, p) for _, p, _, _, _ in progs])
     cases = []
-    for (kind, p), e in zip(progs, emitted):
-        stream = build_stream(p, e[2], e[3], rng if kind == "random" else None)
-        cases.append((kind, p, e[0] == 1, e[1] == 1, stream))
-    obs = [sccobs.observe(c[4]) for c in cases]
-    models = sccobs.model_batch([(c[4], 0) for c in cases])
-    oks = oracle_batch([(502, [c[1], wire_obs(o)]) for c, o in zip(cases, obs)])
+    for (kind, p, layout, dbl, text), e in zip(progs, emitted):
+        stream = build_stream(p, e[2], e[3], _random.Random(rng.random()), layout, dbl, text)
+        cases.append((kind, p, e[0] == 1, e[1] == 1, stream, layout, dbl, text))
+    obs, models, oks = judge_batch([(c[1], c[4]) for c in cases])
     names = {0: "ch", 1: "sp", 2: "ext", 3: "mid", 5: "bs"}
-    for (kind, p, dom, indep, stream), o, m, ok in zip(cases, obs, models, oks):
+    for (kind, p, dom, wide, stream, layout, dbl, text), o, m, ok in zip(cases, obs, models, oks):
         res["evaluations"] += 1
-        dist["doubled"] += p[0]
+        for k, v in (("layout", layout), ("doubling", dbl), ("text", text)):
+            dist[k][v] = dist[k].get(v, 0) + 1
         dist["loads"][len(p[1])] = dist["loads"].get(len(p[1]), 0) + 1
         for l in p[1]:
             for r in l:
@@ -230,57 +430,100 @@ def run(ctx):
                     dist["items"][names[it[0]]] += 1
         oc = "ok" if isinstance(o, Ok) else ("len" if isinstance(o, tuple) else impl.ERR_NAMES.get(o.code, o.code))
         dist["outcome"][oc] = dist["outcome"].get(oc, 0) + 1
-        d = sccobs.same(o, m)
+        d = sccobs.same_view(o, m)
         if d:
             res["disagreements"].append({"stream": stream, "program": p, "difference": d})
-        if not dom:
-            dist["out_of_domain"] += 1
+        elif sccobs.blanks_differ(o, m):
+            dist["info_blanks_differ_from_model"] = dist.get("info_blanks_differ_from_model", 0) + 1
+        if not wide:
+            for why in reasons_out_of_domain(p):
+                dist["out_of_domain"][why] = dist["out_of_domain"].get(why, 0) + 1
             continue
-        if mid_on_empty_after_full(p):
-            dist["mid_on_empty_after_full_row_excluded"] = dist.get("mid_on_empty_after_full_row_excluded", 0) + 1
-            continue
-        if sum(len(l) for l in p[1]) >= 2 or kind == "sweep":
+        dist["in_strict_domain" if dom else "in_wide_domain_only"] += 1
+        if sum(len(l) for l in p[1]) >= 2 or kind != "random":
             res["nontrivial"].add(stream)
-        if not indep:
-            dist["tracker_leak_shape"] += 1
+        rsb = has_rowstart_backspace(p)
+        dist["rowstart_backspace_programs"] += rsb
         if ok != 1:
+            if not isinstance(o, Ok):
+                shape = "error"
+            elif len(o.v) != expected_caption_count(p):
+                shape = "grouping"
+            else:
+                shape = "content"
+            # known finding C05-backspace-at-row-start: only when the input has the shape AND the implementation did what
+            # the faithful decoder model does (it erases the last character of the previous row)
+            if rsb and d is None:
+                shape = "backspace-at-row-start"
+
+            def still_fails(q, layout=layout, dbl=dbl):
+                e = oracle1(501, q)
+                if e[1] != 1 or (shape != "backspace-at-row-start" and has_rowstart_backspace(q)):
+                    return False
+                st = build_stream(q, e[2], e[3], _random.Random(1), layout, dbl, "plain")
+                return oracle1(502, [q, wire_obs(sccobs.observe(st))]) != 1
+            # shrink the first few violations of every shape (the known row-start shape must not use up the budget)
+            nshape = sum(1 for v in res["violations"] if v.get("shape") == shape)
+            small = shrink(p, layout, dbl, still_fails) if nshape < 6 else p
+            e = oracle1(501, small)
+            sstream = build_stream(small, e[2], e[3], _random.Random(1), layout, dbl, "plain") if small is not p else stream
+            so = sccobs.observe(sstream) if small is not p else o
             res["violations"].append({
-                "kind": "screen-mismatch", "replay": "program",
-                "what": "the captions read differ from the CEA-608 screen of the program (characters, lines, italics, "
-                        "position or grouping)",
-                "input": p, "program": p, "stream": stream, "impl_obs": show(o)})
-    # C: soups - decoder model vs implementation only
-    soups = [sccsoup.soup(rng) for _ in range(ctx.n(1500, 40000))]
+                "kind": "screen-mismatch", "shape": shape, "replay": "program",
+                "what": {"error": "read raised instead of returning the captions of the CEA-608 screen",
+                         "grouping": "the rows are not grouped into captions as on the CEA-608 screen (consecutive rows = "
+                                     "one caption, others separate)",
+                         "content": "characters, italic flags, line structure or position of a caption differ from the "
+                                    "CEA-608 screen",
+                         "backspace-at-row-start": "a backspace sent while its row shows no character erases the last "
+                                                   "character of the previous row (a 608 decoder erases nothing)"}[shape],
+                "input": small, "program": small, "stream": sstream, "layout": layout, "doubling": dbl,
+                "impl_obs": show(so)})
+    # D: soups that stay in pop-on mode - decoder model vs implementation at the level the property fixes
+    soups = [sccsoup.soup(rng, popon_only=True) for _ in range(ctx.n(1500, 40000))]
+    # loads that never address a row (text right after ENM RCL / RCL): the position they get depends on whether the
+    # tracker was reset - outside the statement, compared with the model only
+    for row in (1, 7, 14, 15):
+        for ind in (0, 8, 28):
+            for lead in ([g.ENM, g.RCL], [g.RCL], [g.ENM, g.ENM, g.RCL, g.RCL]):
+                first = [g.ENM, g.RCL, g.pac(row, ind)] + g.text_words("ab") + [g.EOC]
+                soups.append(g.doc([(g.timecode(30, False), first), (g.timecode(90, False), [g.EDM]),
+                                    (g.timecode(120, False), lead + g.text_words("cd") + [g.EOC]),
+                                    (g.timecode(200, False), [g.EDM])]))
+                dist["pacless_loads"] += 1
     so = [sccobs.observe(s) for s in soups]
     sm = sccobs.model_batch([(s, 0) for s in soups])
-    for s, o, m in zip(soups, so, sm):
+    for s_, o, m in zip(soups, so, sm):
         res["evaluations"] += 1
         dist["soups"] += 1
-        d = sccobs.same(o, m)
+        d = sccobs.same_view(o, m)
         if d:
-            res["disagreements"].append({"stream": s, "difference": d, "which": "soup"})
-    res["rule"] = ("A: 2 x (480 cursor addresses + 30 italic-preamble rows + 94 basic + 15 special + 64 extended characters in "
-                   "first/middle/last position); B: random programs of 1-4 loads x 1-4 rows (adjacent or scattered), indent, "
-                   "tab offset, italics preamble, items drawn from basic 62% / special 8% / extended 10% / mid-row 8% / "
-                   "backspace 5%, doubled 60%; C: random soups over all code classes. Non-trivial: a sweep program or a "
-                   "program with at least two rows, inside dom_c05. Distinct streams counted.")
+            res["disagreements"].append({"stream": s_, "difference": d, "which": "soup"})
+    res["rule"] = ("A: sweep of cursor addresses, preamble styles, mid-row codes, every character code, backspace after "
+                   "every code, backspace at a row start (x all-single / all-doubled); B: all item sequences of length <= 3 "
+                   "over a 7-symbol alphabet x adjacent / non-adjacent second row x all-single / all-doubled; C: random "
+                   "programs of 1-4 loads x 1-4 rows (35% with the shapes of the wide domain), layouts {line per load, no "
+                   "ENM, EDM before the load, EDM lines, several loads per line, split loads}, doubling {none, all, mixed "
+                   "per code}, text {plain, upper-case hex, CRLF, trailing blanks}; D: random pop-on soups. Non-trivial: "
+                   "a sweep / enumerated program or a program with at least two rows, inside dom_c05_wide. Distinct "
+                   "streams counted.")
     res["samples"] = [{"program": c[1], "stream": c[4]} for c in cases[-2:]]
     res["clauses"] = {
-        "theorem": ["generated tables = CEA-608 (all basic / special / extended codes, the 15 x 32 preamble grid, tab "
-                    "offsets, control codes, class disjointness, style classes)", "layout linear on all 480 positions",
-                    "a doubled control / special / extended code counts once; PAC+TO doubled as a unit counts once; "
-                    "PAC PAC TO TO drops the offset", "extended character replaces exactly its stand-in; backspace "
-                    "deletes exactly one character", "italic nodes balanced per caption for ALL instruction lists; "
-                    "the italics passes keep every text / break / reposition node"],
-        "correspondence_only": ["popon_refines_608 (decoder state machine on whole programs): full decoder model vs "
-                                "implementation on every program and soup; oracle ok_c05 on the implementation",
-                                "mid-row code blank cell: a space or nothing is accepted (Opt)"]}
+        "theorem": ["generated tables = CEA-608 (all codes, the 15 x 32 preamble grid, tab offsets, control codes, classes)",
+                    "popon_refines_608: the decoder MODEL satisfies ok_c05 for whole programs over the full item domain "
+                    "(dom: load_wf per load; layout: one load per line starting ENM RCL, EDM lines anywhere)",
+                    "a repeated control code pair counts once (every state, every word); PAC+TO doubled as a unit counts "
+                    "once; italics balanced for all instruction lists"],
+        "correspondence_only": ["that pycaption behaves like the model: characters / italics / lines / origin of every "
+                                "caption on every generated stream",
+                                "stream layouts outside the theorem (no ENM, EDM on the load's line, several loads per "
+                                "line, split loads), mixed doubling, the wide domain shapes: ok_c05 on the implementation",
+                                "text-level tokenisation (upper case, CRLF, trailing blanks): the harness applies the "
+                                "reader's own tokenisation rules to feed the model"]}
     return res
 
 
 def replay(ctx, rec):
-    p = rec["program"]
-    e = oracle1(501, p)
     o = sccobs.observe(rec["stream"])
-    ok = oracle1(502, [p, wire_obs(o)])
+    ok = oracle1(502, [rec["program"], wire_obs(o)])
     return ok != 1, str(show(o))[:600]
